@@ -146,6 +146,10 @@ class AofWrites(workloads.Pool):
 
     def next(self):
         r = self.rnd.random()
+        if r < 0.06:
+            # blocking pops that are answered at once (or time out after 10 ms): several keys, the pop may come from any
+            ks = self.rnd.sample([b'l1', b'l2', b'nolist', b'k3'], self.rnd.choice([1, 2, 3]))
+            return [self.rnd.choice([b'BLPOP', b'BRPOP'])] + ks + [b'0.01']
         if r < 0.45:
             return self.s.next()
         if r < 0.8:
